@@ -34,10 +34,26 @@ import fakenet as fn
 ID = 'C15'
 MODULE = 'SshAudit.Props.C15'
 NAMESPACE = 'SshAudit.C15'
-THEOREMS = []
-TECHNIQUE = ''
-LEVEL_TEXT = ''
-LEVEL_NOTE = ''
+THEOREMS = ['output_runs_clean', 'render_eq_closed', 'stdout_eq', 'status_cfg_free', 'sections_level_free', 'level_filter_section', 'section_at_info',
+            'level_filter', 'render_at_info', 'level_only_deletes', 'level_lines_pass', 'level_keeps_passing', 'stdout_nonblank_only_deletes',
+            'd32_blank_line_added', 'stdout_all_lines_false', 'stdout_quiet_only_deletes', 'algPairs_key', 'findings_cfg_free', 'batch_same_findings',
+            'colour_same_findings', 'verbose_same_findings', 'finding_level', 'algLines_ordered', 'report_lines_ordered', 'finding_text',
+            'colour_strip_section', 'colour_strip', 'colour_strip_exact', 'json_once', 'json_every_level', 'json_option_free', 'json_stdout_quiet',
+            'json_stdout_verbose', 'json_single_document_false', 'json_error_path', 'json_error_not_single', 'json_info_perm_text']
+TECHNIQUE = ('Lean 4 theorems about an executable model of OutputBuffer (state machine: level filter, always_print, sections, sort, line_ended, colours, v()/write) run on the call sequence of output() '
+             '(closed form by induction; level filter via uniqueness of sorted permutations; colour strip; JSON mode) + correspondence on the full 72-point option grid through the real output() and main() '
+             '+ independent oracle on the captured text + subprocess runs under four hash seeds (testing)')
+LEVEL_TEXT = ('Proved for every option set and every report: output() never trips the buffer and leaves a closed form; raising the minimum level only deletes lines (sub-list), section by section exactly the '
+              'lines whose method passes the level, headers only of sections that keep an item; the findings shown and their filter level depend on the report (and on verbose only through the line form), '
+              'not on batch/colour/level/JSON; colour escapes strip to the plain lines; JSON mode leaves exactly one entry, the document, at every level. The known deviations are proved as negations '
+              'with witnesses (D32 blank line, -v -j text before the document, D05 error text after it). The model is compared with the real output() on generated peers over all 72 option sets, '
+              'with the real OutputBuffer on random call sequences and with the real main() over scripted peers.')
+LEVEL_NOTE = ('Trusted: Lean kernel, harness, fakenet. The report data (notes, status, recommendations) is the C01-C04/C13 model and takes no output option; the JSON document is an opaque input of the '
+              'presentation model (its notes: C03.json_eq_text_fail_warn and json_info_perm_text). The finding carried by a printed line is tied to its text by finding_text (shape of the line), '
+              'the decoding of real text back into records is done by the oracle, not proved. Colour strip assumes texts without ESC characters and gives a permutation for the sorted recommendation '
+              'section (coloured lines are sorted with their escape prefix). SSH-1 public-key audits are not modelled (SSH-1.99 banners are). '
+              'RUNTIME PART = TESTING, NOT PROOF: byte-identical stdout and exit code across repeated subprocess runs of /repo/ssh-audit.py (via runpy over fakenet) under PYTHONHASHSEED 0, 1, 2, random, '
+              'and compact vs. indented JSON parsing to the same value, are checked on a few dozen (quick) / a few hundred (thorough) runs.')
 
 LEVELS = ('info', 'warn', 'fail')
 ANSI_RX = re.compile('\x1b\\[0(;[0-9][0-9])?m')
@@ -125,3 +141,790 @@ def run_line(o, peer, banner, client=False, rate_notes='', header=(), print_targ
             ('_' if not fps else ';'.join('%s:%s:%s' % (tstr(a), tstr(b), tstr(c)) for a, b, c in fps)),
             tbool(client and sw is not None and sw.product == Product.PuTTY), tstr(docs[0]), tstr(docs[1]), tstrs(list(vmsgs)), toptstr(err)]
     return 'output.run ' + ' '.join(toks) + ' ' + rc.report_line(peer, client, banner, rate_notes)[len('report '):]
+
+
+# ---------------------------------------------------------------- independent re-reading of captured text (oracle side)
+
+SEV = {'info': 0, 'warn': 1, 'fail': 2}
+COLOUR_LEVEL = {'31': 2, '33': 1, '32': 0, '36': 'head'}
+
+
+def strip_ansi(t):
+    return ANSI_RX.sub('', t)
+
+
+def findings_of_entries(entries):
+    """[(cat, shown, severity, text)] in order, re-parsed from plain buffer lines; the placeholder note of a line with nothing to say is dropped"""
+    recs = rc.parse_alg_records([(None, strip_ansi(e), None, None) for e in entries], verbose=True)
+    out = []
+    for c in rc.CATS:
+        for shown, notes, _ in recs[c]:
+            for lvl, text in notes:
+                out.append((c, shown.rstrip(' '), lvl, text))      # column padding is presentation
+    return out
+
+
+def line_level(line):
+    m = re.match('\x1b\\[0;([0-9][0-9])m', line)
+    return COLOUR_LEVEL.get(m.group(1), 0) if m else 0
+
+
+def is_always(line):
+    return strip_ansi(line).startswith(('(gen) target: ', '(gen) client IP: '))
+
+
+def spec_filter(info_entries, lv, batch):
+    """What the documentation promises for `-l`: the info-level report minus every line below the level (always-print lines stay);
+    a section header stays iff one of its lines stays.  Works on coloured output (the colour tells the level)."""
+    if lv == 0:
+        return list(info_entries)
+    if batch:
+        return [l for l in info_entries if (line_level(l) != 'head' and line_level(l) >= lv and l != '') or is_always(l)]
+    out, i, n = [], 0, len(info_entries)
+    while i < n:
+        l = info_entries[i]
+        if line_level(l) == 'head':
+            j = i + 1
+            body = []
+            while j < n and info_entries[j] != '':
+                body.append(info_entries[j])
+                j += 1
+            kept = [b for b in body if (line_level(b) != 'head' and line_level(b) >= lv) or is_always(b)]
+            if kept:
+                out.append(l)
+                out.extend(kept)
+            i = j + 1
+        else:
+            if l != '' and line_level(l) >= lv:
+                out.append(l)
+            i += 1
+    return out
+
+
+def is_subsequence(a, b):
+    it = iter(b)
+    return all(any(x == y for y in it) for x in a)
+
+
+def norm_rec_order(lines):
+    """sort every maximal run of (rec) lines (coloured lines are sorted with their escape prefix: the order inside that block is presentation)"""
+    out, run = [], []
+    for l in lines:
+        if l.startswith('(rec) '):
+            run.append(l)
+        else:
+            out.extend(sorted(run))
+            run = []
+            out.append(l)
+    out.extend(sorted(run))
+    return out
+
+
+def json_findings(doc, cat):
+    """[(algorithm, [(lvl, text)…])] from the JSON document, blank names skipped (the text report skips them)"""
+    out = []
+    for e in doc.get(cat, []):
+        if not e['algorithm'].strip():
+            continue
+        notes = []
+        for lvl in ('fail', 'warn', 'info'):
+            for t in e['notes'].get(lvl, []) or []:
+                if t is not None:
+                    notes.append((lvl, t))
+        out.append((e['algorithm'], notes))
+    return out
+
+
+def db_knows(cat, name):
+    db = pg.master()[cat]
+    if cat == 'kex' and name.startswith('gss-'):
+        name = name[:name.rindex('-')] + '-*'
+    return name in db
+
+
+def okey(o):
+    return (o['batch'], o['verbose'], o['colors'], o['level'], o['json'])
+
+
+def oracle_peer(results, peer, desc):
+    """The property on one peer, from the captured buffers of all 72 option sets.  results: {okey: (ret, entries)}.  Returns failure dicts."""
+    fails = []
+
+    def fail(kind, o, observed, expected, **extra):
+        sig = {'kind': kind}
+        sig.update(extra)
+        fails.append({'sig': sig, 'input': {'what': 'output()', 'desc': desc, 'options': o}, 'observed': observed, 'expected': expected,
+                      'how': 'harness/props/C15.py oracle_peer on the real output()'})
+    base_o = dict(batch=False, verbose=False, colors=False, level='info', json=0)
+    base_ret, base_entries = results[okey(base_o)]
+    base_find = findings_of_entries(base_entries)
+    base_real = [f for f in base_find if not (f[2] == 'info' and f[3] == '')]
+    for o in GRID:
+        ret, entries = results[okey(o)]
+        # (a) verdict
+        if ret != base_ret:
+            fail('status_depends_on_options', o, ret, base_ret)
+        lv = LEVELS.index(o['level'])
+        if o['json']:
+            # (e) JSON: exactly one entry, at every level, well-formed
+            if len(entries) != 1:
+                fail('json_not_single_entry', o, [e[:80] for e in entries[:4]], 'one buffer entry: the document')
+                continue
+            try:
+                doc = json.loads(entries[0])
+            except ValueError as e:
+                fail('json_not_wellformed', o, str(e), 'a JSON document')
+                continue
+            ref = results[okey(dict(batch=False, verbose=False, colors=False, level='info', json=o['json']))][1]
+            if entries != ref:
+                fail('json_depends_on_options', o, entries[0][:200], ref[0][:200] if ref else None)
+            continue
+        # (b) findings at this level = the report's findings of at least that severity
+        got = [f for f in findings_of_entries(entries) if not (f[2] == 'info' and f[3] == '')]
+        want = [f for f in base_real if SEV.get(f[2], 0) >= lv]
+        if got != want:
+            d = [x for x in got if x not in want][:3], [x for x in want if x not in got][:3]
+            fail('findings_depend_on_options', o, {'extra': d[0], 'missing': d[1], 'n': len(got)}, {'n': len(want)})
+        # names without any note must still be listed at level info
+        if lv == 0:
+            names = [(f[0], f[1]) for f in findings_of_entries(entries)]
+            names0 = [(f[0], f[1]) for f in base_find]
+            if sorted(set(names)) != sorted(set(names0)):
+                fail('names_depend_on_options', o, sorted(set(names) ^ set(names0))[:4], 'same algorithm lines')
+        # (c) level: only deletes, and deletes exactly what is below the level
+        info_entries = results[okey(dict(o, level='info'))][1]
+        if not is_subsequence(entries, info_entries):
+            extra = [e for e in entries if e not in info_entries][:3]
+            fail('level_adds_or_alters_line', o, {'lines_not_in_info_output': extra}, 'a sub-sequence of the info-level output')
+        elif o['colors']:
+            want_lines = spec_filter(info_entries, lv, o['batch'])
+            if entries != want_lines:
+                d1 = [e for e in entries if e not in want_lines][:3]
+                d2 = [e for e in want_lines if e not in entries][:3]
+                fail('level_filter_wrong_lines', o, {'unexpected': d1, 'missing': d2}, 'info-level output minus the lines below the level')
+        # (d) colour strip
+        if o['colors']:
+            plain = results[okey(dict(o, colors=False))][1]
+            stripped = [strip_ansi(e) for e in entries]
+            if norm_rec_order(stripped) != norm_rec_order(plain):
+                d1 = [e for e in stripped if e not in plain][:3]
+                fail('colour_changes_text', o, {'lines_only_in_coloured': d1, 'n': len(stripped)}, {'n': len(plain)})
+    # (e') JSON content: compact == indented as values; notes of database names == text notes; verdict
+    rc_, ec = results[okey(dict(base_o, json=1))]
+    ri, ei = results[okey(dict(base_o, json=2))]
+    try:
+        dc, di = json.loads(ec[0]), json.loads(ei[0])
+    except Exception:
+        dc = di = None
+    if dc is not None:
+        if dc != di:
+            fail('json_compact_vs_indented', dict(base_o, json=2), 'documents differ as values', 'equal values')
+        recs = rc.parse_alg_records([(None, e, None, None) for e in base_entries], verbose=False)
+        for c in rc.CATS:
+            text_side = [(shown.rstrip(' '), [(a, b) for a, b in notes if not (a == 'info' and b == '')]) for shown, notes, _ in recs[c]]
+            json_side = json_findings(dc, c)
+            if len(text_side) != len(json_side):
+                fail('json_names_differ', dict(base_o, json=1), {'cat': c, 'json': len(json_side), 'text': len(text_side)}, 'same names')
+                continue
+            for (shown, tn), (name, jn) in zip(text_side, json_side):
+                if not db_knows(c, name):
+                    continue
+                if sorted(tn) != sorted(jn):
+                    fail('json_findings_differ_from_text', dict(base_o, json=1), {'cat': c, 'name': name, 'json': sorted(jn)[:4], 'text': sorted(tn)[:4]}, 'same notes for a database name')
+    return fails
+
+
+# ---------------------------------------------------------------- generators
+
+def severity_classes():
+    db = pg.master()
+    out = {}
+    for c in rc.CATS:
+        cl = {'fail': [], 'warn': [], 'clean': []}
+        for n, d in db[c].items():
+            if n.endswith('-*'):
+                continue
+            f = len(d) > 1 and any(d[1])
+            w = len(d) > 2 and any(d[2])
+            cl['fail' if f else ('warn' if w else 'clean')].append(n)
+        out[c] = cl
+    return out
+
+
+def special_peers(r):
+    """peers covering every severity mix: per category all-clean / all-warn / all-fail / mixed, plus unknown, gss, sized and duplicate names"""
+    cl = severity_classes()
+    peers = []
+
+    def pick(c, k, n=2):
+        pool = cl[c][k] or cl[c]['warn'] or cl[c]['fail']
+        return [r.choice(pool) for _ in range(n)]
+    for mix in (('clean',) * 4, ('warn',) * 4, ('fail',) * 4, ('fail', 'clean', 'warn', 'clean'), ('clean', 'warn', 'clean', 'fail'), ('warn', 'fail', 'fail', 'warn')):
+        lists = [pick(c, k) for c, k in zip(rc.CATS, mix)]
+        peers.append((rc.mk_peer(*lists), 'mix-' + '/'.join(mix)))
+    p = rc.mk_peer(['curve25519-sha256', pg.unknown_name(r, 'plain'), pg.gss_name(r)], ['ssh-ed25519', 'rsa-sha2-512', 'ssh-rsa-cert-v01@openssh.com', 'ssh-rsa'],
+                   ['chacha20-poly1305@openssh.com', 'aes128-cbc', pg.unknown_name(r, 'at')], ['hmac-sha2-256-etm@openssh.com', 'hmac-md5', 'hmac-md5'],
+                   comp=['none', 'zlib@openssh.com'],
+                   host_keys={'rsa-sha2-512': {'hostkey_size': 2048, 'ca_key_type': '', 'ca_key_size': 0}, 'ssh-rsa': {'hostkey_size': 4096, 'ca_key_type': '', 'ca_key_size': 0},
+                              'ssh-rsa-cert-v01@openssh.com': {'hostkey_size': 3072, 'ca_key_type': 'ssh-rsa', 'ca_key_size': 4096}, 'ssh-ed25519': {'hostkey_size': 256, 'ca_key_type': '', 'ca_key_size': 0}},
+                   dh={})
+    peers.append((p, 'unknown+gss+sizes+dup'))
+    p2 = rc.mk_peer(['diffie-hellman-group-exchange-sha256', 'diffie-hellman-group1-sha1', 'kex-strict-s-v00@openssh.com'], ['ecdsa-sha2-nistp256', 'ssh-dss'],
+                    ['aes256-gcm@openssh.com', '3des-cbc'], ['hmac-sha1', 'umac-128-etm@openssh.com'],
+                    host_keys={'ecdsa-sha2-nistp256': {'hostkey_size': 256, 'ca_key_type': '', 'ca_key_size': 0}, 'ssh-dss': {'hostkey_size': 1024, 'ca_key_type': '', 'ca_key_size': 0}},
+                    dh={'diffie-hellman-group-exchange-sha256': 2048})
+    peers.append((p2, 'gex2048+strict+weak-fingerprints'))
+    return peers
+
+
+VARIANTS = [
+    dict(),
+    dict(client=True, banner_line='SSH-2.0-PuTTY_Release_0.78'),
+    dict(banner_line='SSH-1.99-OpenSSH_3.9p1'),
+    dict(header=['Welcome', 'to the machine'], print_target=True, host='10.0.0.9', port=2222),
+    dict(print_target=True, host='fe80::1', port=222, banner_line='SSH-2.0-dropbear_2022.83'),
+    dict(banner_line=None),
+    dict(rate_notes='Potentially insufficient connection throttling detected, resulting in possible vulnerability to the DHEat DoS attack (CVE-2002-20001).'),
+    dict(banner_line='SSH-2.0-FooServer_1.0', client=True),
+]
+
+
+# ---------------------------------------------------------------- the real OutputBuffer on random call sequences
+
+def gen_ops(r):
+    alpha = ['', 'a', 'b', 'Zz', '(rec) -x', '(rec) +y', 'x\ny', '\x1b[0;31mq\x1b[0m', ' ', '# t', 'Result: ', 'Failed!']
+    n = r.choice([1, 2, 3, 5, 8, 12, 20])
+    ops = []
+    for _ in range(n):
+        k = r.random()
+        t = r.choice(alpha)
+        if k < 0.45:
+            ops.append(('p', r.choice(['good', 'info', 'warn', 'fail']), t, r.random() < 0.8, r.random() < 0.15))
+        elif k < 0.52:
+            ops.append(('h', t, r.random() < 0.85))
+        elif k < 0.58:
+            ops.append(('s',))
+        elif k < 0.66:
+            ops.append(('e',))
+        elif k < 0.74:
+            ops.append(('x',))
+        elif k < 0.79:
+            ops.append(('f', r.random() < 0.5))
+        elif k < 0.86:
+            ops.append(('c', t, r.random() < 0.5))
+        elif k < 0.90:
+            ops.append(('w',))
+        elif k < 0.92:
+            ops.append(('r',))
+        elif k < 0.97:
+            ops.append(('v', t, r.random() < 0.7))
+        else:
+            ops.append(('d', t, r.random() < 0.7))
+    return ops
+
+
+def op_token(op):
+    k = op[0]
+    if k == 'p':
+        return 'p:%s:%s:%s:%s' % (op[1], tstr(op[2]), tbool(op[3]), tbool(op[4]))
+    if k == 'h':
+        return 'h:%s:%s' % (tstr(op[1]), tbool(op[2]))
+    if k in ('f',):
+        return 'f:%s' % tbool(op[1])
+    if k == 'c':
+        return 'c:%s:%s' % (tstr(op[1]), tbool(op[2]))
+    if k in ('v', 'd'):
+        return '%s:%s:%s' % (k, tstr(op[1]), tbool(op[2]))
+    return k
+
+
+def real_ops(o, debug, ops):
+    """run the call sequence on the real OutputBuffer; returns the state the driver's buf.exec reports"""
+    from ssh_audit.outputbuffer import OutputBuffer
+    out = OutputBuffer()
+    out.batch, out.verbose, out.debug, out.level, out.use_colors = o['batch'], o['verbose'], debug, o['level'], o['colors']
+    cap = io.StringIO()
+    old = sys.stdout
+    sys.stdout = cap
+    err = None
+    try:
+        for op in ops:
+            k = op[0]
+            if k == 'p':
+                getattr(out, op[1])(op[2], line_ended=op[3], always_print=op[4])
+            elif k == 'h':
+                out.head(op[1], line_ended=op[2])
+            elif k == 's':
+                out.sep()
+            elif k == 'e':
+                out.__enter__()
+            elif k == 'x':
+                out.__exit__()
+            elif k == 'f':
+                out.flush_section(sort_section=op[1])
+            elif k == 'c':
+                if not out.is_section_empty() and not (o['json'] > 0):
+                    out.head(op[1])
+                    out.flush_section(sort_section=op[2])
+                    out.sep()
+            elif k == 'w':
+                out.write()
+            elif k == 'r':
+                out.reset()
+            elif k == 'v':
+                out.v(op[1], write_now=op[2])
+            elif k == 'd':
+                out.d(op[1], write_now=op[2])
+    except IndexError:
+        err = 'index'
+    finally:
+        sys.stdout = old
+    return {'buffer': list(out.buffer), 'sect': list(out.section), 'inSection': out.in_section, 'lineEnded': out.line_ended, 'stdout': cap.getvalue(), 'err': err}
+
+
+# ---------------------------------------------------------------- main() over scripted peers
+
+SERVERS = {
+    'mixed': dict(kex=('curve25519-sha256', 'diffie-hellman-group14-sha1'), key=('ssh-ed25519',), enc=('aes256-ctr', '3des-cbc'), mac=('hmac-sha2-256', 'hmac-md5')),
+    'clean': dict(kex=('sntrup761x25519-sha512@openssh.com',), key=('ssh-ed25519',), enc=('aes256-gcm@openssh.com',), mac=('hmac-sha2-256-etm@openssh.com',)),
+    'warnonly': dict(kex=('curve25519-sha256',), key=('ssh-ed25519',), enc=('aes256-ctr',), mac=('hmac-sha2-256',)),
+    'unknown': dict(kex=('curve25519-sha256', 'zz-newkex@example.org'), key=('ssh-ed25519',), enc=('aes256-ctr',), mac=('hmac-sha2-512-etm@openssh.com',), banner=b'SSH-2.0-dropbear_2022.83'),
+}
+
+
+def make_server(name, fault=None):
+    kw = dict(SERVERS[name])
+    if fault == 'no_kexinit':
+        srv = fn.simple_server(**kw)
+        srv.kexinit_payload = None
+        return srv
+    return fn.simple_server(**kw)
+
+
+def peer_of_kex(kex):
+    return {'kex': list(kex.kex_algorithms), 'key': list(kex.key_algorithms), 'encC': list(kex.client.encryption), 'encS': list(kex.server.encryption),
+            'macC': list(kex.client.mac), 'macS': list(kex.server.mac), 'comp': list(kex.server.compression),
+            'host_keys': {k: dict(v) for k, v in kex.host_keys().items() if v is not None}, 'dh': dict(kex.dh_modulus_sizes())}
+
+
+EMPTY_PEER = {'kex': [], 'key': [], 'encC': [], 'encS': [], 'macC': [], 'macS': [], 'comp': [], 'host_keys': {}, 'dh': {}}
+
+
+def run_main_captured(server_name, args, fault=None):
+    """main() over fakenet with output() observed; returns (exit code, stdout, captured output() arguments or None, error text printed after output() or None)"""
+    from ssh_audit import ssh_audit as sa
+    cap = {}
+    real_output_fn = sa.output
+    real_cls = sa.OutputBuffer
+
+    class Rec(real_cls):
+        def fail(self, s, line_ended=True, write_now=False, always_print=False):
+            if cap.get('after_output') and 'err' not in cap:
+                cap['err'] = s
+            return super().fail(s, line_ended=line_ended, write_now=write_now, always_print=always_print)
+
+    def spy(out, aconf, banner, header, client_host=None, kex=None, pkm=None, print_target=False, dh_rate_test_notes=''):
+        cap.update(banner=banner, header=list(header), client_host=client_host, kex=kex, print_target=print_target, rate=dh_rate_test_notes, host=aconf.host, port=aconf.port)
+        ret = real_output_fn(out, aconf, banner, header, client_host=client_host, kex=kex, pkm=pkm, print_target=print_target, dh_rate_test_notes=dh_rate_test_notes)
+        cap['after_output'] = True
+        cap['ret'] = ret
+        return ret
+    sa.output = spy
+    sa.OutputBuffer = Rec
+    saved = os.environ.pop('NO_COLOR', None)
+    try:
+        srv = make_server(server_name, fault)
+        code, text = fn.run_main(['--skip-rate-test'] + list(args) + ['10.0.0.5'], fn.FakeNet({'10.0.0.5': srv}))
+    finally:
+        sa.output = real_output_fn
+        sa.OutputBuffer = real_cls
+        if saved is not None:
+            os.environ['NO_COLOR'] = saved
+    return code, text, (cap if 'banner' in cap else None), cap.get('err')
+
+
+def args_of(o):
+    a = []
+    if o['batch']:
+        a.append('-b')
+    if o['verbose']:
+        a.append('-v')
+    if not o['colors']:
+        a.append('-n')
+    if o['level'] != 'info':
+        a += ['-l', o['level']]
+    if o['json']:
+        a.append('-j' if o['json'] == 1 else '-jj')
+    return a
+
+
+VMSG = 'Starting audit of 10.0.0.5:22...'
+
+
+def oracle_main(runs, server_name, fault):
+    """The property on stdout of the real main(): runs = {okey: (code, stdout)} for one scripted peer."""
+    fails = []
+
+    def fail(kind, o, observed, expected, **extra):
+        sig = {'kind': kind}
+        sig.update(extra)
+        fails.append({'sig': sig, 'input': {'what': 'main()', 'server': server_name, 'fault': fault, 'args': args_of(o), 'options': o}, 'observed': observed, 'expected': expected,
+                      'how': 'harness/props/C15.py oracle_main: real main() over an in-process scripted peer'})
+    codes = {}
+    for k, (code, text) in runs.items():
+        codes.setdefault(code, []).append(k)
+    if len(codes) != 1:
+        minority = min(codes.items(), key=lambda kv: len(kv[1]))
+        o = [g for g in GRID if okey(g) == minority[1][0]][0]
+        fail('status_depends_on_options', o, {c: len(v) for c, v in codes.items()}, 'one exit status for all option sets')
+    for o in GRID:
+        if okey(o) not in runs:
+            continue
+        code, text = runs[okey(o)]
+        lines = text.split('\n')[:-1] if text.endswith('\n') else text.split('\n')
+        if o['json']:
+            try:
+                json.loads(text)
+                ok = True
+            except ValueError:
+                ok = False
+            if not ok:
+                why = 'other'
+                if fault is not None and text.lstrip().startswith('{'):
+                    why = 'error_text_after_document'
+                elif o['verbose'] and text.startswith(VMSG):
+                    why = 'verbose_message_before_document'
+                fail('json_not_single_document', o, {'stdout_head': text[:100], 'stdout_tail': text[-120:]}, 'stdout is one well-formed JSON document', why=why)
+            continue
+        ik = okey(dict(o, level='info'))
+        if ik in runs and o['level'] != 'info':
+            info_lines = runs[ik][1].split('\n')[:-1]
+            if not is_subsequence(lines, info_lines):
+                extra = [l for l in lines if l not in info_lines]
+                if extra == [''] * len(extra) and o['verbose']:
+                    fail('level_adds_blank_line_verbose', o, {'stdout_head': text[:80]}, 'a sub-sequence of the info-level stdout (no line the info-level output lacks)')
+                else:
+                    fail('level_adds_or_alters_line', o, {'lines_not_in_info_output': extra[:3]}, 'a sub-sequence of the info-level stdout')
+            nb, nbi = [l for l in lines if l != ''], [l for l in info_lines if l != '']
+            if not is_subsequence(nb, nbi):
+                fail('level_adds_or_alters_line', o, {'nonblank_lines_not_in_info_output': [l for l in nb if l not in nbi][:3]}, 'non-blank lines: a sub-sequence of the info-level stdout')
+    return fails
+
+
+# ---------------------------------------------------------------- runtime part: subprocess runs under several hash seeds (testing, not proof)
+
+BOOT = r'''
+import json, runpy, sys
+sys.path.insert(0, %(harness)r)
+sys.path.insert(0, %(src)r)
+import fakenet as fn
+spec = json.loads(sys.argv[1])
+srv = fn.simple_server(**{k: (v.encode() if k == 'banner' else tuple(v)) for k, v in spec['server'].items()})
+if spec.get('fault') == 'no_kexinit':
+    srv.kexinit_payload = None
+sys.argv = ['ssh-audit.py'] + spec['args'] + ['10.0.0.5']
+with fn.patched(fn.FakeNet({'10.0.0.5': srv})):
+    runpy.run_path(%(script)r, run_name='__main__')
+'''
+
+
+def process_runs(jobs, par=8):
+    """jobs: [(server_name, fault, args, seed)] -> [(exit code, stdout bytes)]"""
+    d = tempfile.mkdtemp(prefix='verif_c15_')
+    boot = os.path.join(d, 'boot.py')
+    with open(boot, 'w') as f:
+        f.write(BOOT % {'harness': HERE, 'src': os.path.join(REPO, 'src'), 'script': os.path.join(REPO, 'ssh-audit.py')})
+    res = [None] * len(jobs)
+    try:
+        pending = list(enumerate(jobs))
+        running = []
+        while pending or running:
+            while pending and len(running) < par:
+                i, (sname, fault, args, seed) = pending.pop(0)
+                env = dict(os.environ)
+                env.pop('NO_COLOR', None)
+                env['PYTHONHASHSEED'] = str(seed)
+                env['PYTHONDONTWRITEBYTECODE'] = '1'
+                spec = {'server': {k: (v.decode() if isinstance(v, bytes) else list(v)) for k, v in SERVERS[sname].items()}, 'fault': fault, 'args': ['--skip-rate-test'] + list(args)}
+                p = subprocess.Popen([sys.executable, boot, json.dumps(spec)], stdout=subprocess.PIPE, stderr=subprocess.PIPE, env=env)
+                running.append((i, p))
+            i, p = running.pop(0)
+            so, se = p.communicate(timeout=120)
+            res[i] = (p.returncode, so, se[-300:])
+    finally:
+        os.unlink(boot)
+        os.rmdir(d)
+    return res
+
+
+def oracle_process(ctx, cov):
+    fails = []
+    r = ctx.rng
+    seeds = ['0', '1', '2', 'random']
+    argsets = [['-n'], ['-n', '-j'], ['-n', '-jj'], [], ['-n', '-b', '-l', 'warn'], ['-n', '-v']]
+    servers = ['mixed', 'unknown'] if ctx.tier != 'thorough' else list(SERVERS)
+    if ctx.tier != 'thorough':
+        argsets = argsets[:3] + [r.choice(argsets[3:])]
+    else:
+        argsets = argsets + [args_of(o) for o in r.sample(GRID, 24)]
+    jobs = []
+    for sname in servers:
+        for a in argsets:
+            for sd in seeds + (['random'] if ctx.tier == 'thorough' else []):
+                jobs.append((sname, None, a, sd))
+    res = process_runs(jobs)
+    groups = {}
+    for (sname, fault, a, sd), (code, so, se) in zip(jobs, res):
+        groups.setdefault((sname, tuple(a)), []).append((sd, code, so, se))
+        cov.add(('proc', sname, tuple(a), sd, len(groups[(sname, tuple(a))])), True, tags=['process-run', 'hashseed-' + sd])
+    for (sname, a), runs in groups.items():
+        first = runs[0]
+        if first[1] not in (0, 2, 3):
+            raise RuntimeError('process tier: %s %s exited %s: %s %s' % (sname, a, first[1], first[2][-300:], first[3]))
+        for sd, code, so, se in runs[1:]:
+            if so != first[2] or code != first[1]:
+                fails.append({'sig': {'kind': 'output_depends_on_hash_seed_or_run'}, 'input': {'what': 'process', 'server': sname, 'args': list(a), 'seeds': [first[0], sd]},
+                              'observed': {'exit': [first[1], code], 'first_difference_at': next((i for i, (x, y) in enumerate(zip(so, first[2])) if x != y), min(len(so), len(first[2])))},
+                              'expected': 'byte-identical stdout and equal exit status', 'how': 'subprocess runs of /repo/ssh-audit.py via runpy over fakenet with PYTHONHASHSEED set'})
+                break
+    for sname in servers:
+        c, i = groups.get((sname, ('-n', '-j'))), groups.get((sname, ('-n', '-jj')))
+        if c and i:
+            try:
+                same = json.loads(c[0][2]) == json.loads(i[0][2])
+            except ValueError:
+                same = False
+            if not same:
+                fails.append({'sig': {'kind': 'json_compact_vs_indented'}, 'input': {'what': 'process', 'server': sname, 'args': ['-n', '-j / -jj']}, 'observed': 'documents differ or do not parse',
+                              'expected': 'equal values', 'how': 'subprocess runs'})
+    return fails, len(jobs)
+
+
+# ---------------------------------------------------------------- run
+
+def grid_for(ctx, r):
+    return GRID
+
+
+def run(ctx):
+    r = ctx.rng
+    cov = Coverage('one evaluation = one rendering of a report by the real code under one option set (output() on a constructed peer, main() over a scripted peer, a subprocess run) or one call sequence on the real '
+                   'OutputBuffer; non-trivial = distinct (peer, option set) pairs; option sets: the full grid batch x verbose x colour x level{info,warn,fail} x {text,-j,-jj} = 72; peers: every severity mix '
+                   '(all-clean/all-warn/all-fail/mixed per category), unknown and gss names, sized host keys and moduli, duplicates, SSH-1.99 / PuTTY-client / unrecognised / missing banners, headers, print_target')
+    failures, mismatches = [], []
+    observations = ['D26: a policy run at -l warn prints the verdict without its "Result: " prefix (the prefix is an info-level line joined through line_ended=False); outside "findings" (modelled: see the examples in Props/C15.lean)',
+                    'D31: an unknown algorithm is [warn] in the text report and "fail" in the JSON notes (C15 compares JSON and text only for names the database knows)',
+                    'the coloured recommendation section is sorted with the escape prefix (critical, informational, warning), the plain one by sign (!, +, -): same lines, different order (colour_strip is a permutation there)']
+    saved_nc = os.environ.pop('NO_COLOR', None)
+    corr = 0
+    try:
+        # ---- (1) buffer machine
+        lines, exp = [], []
+        for _ in range(ctx.scale(1500, 20000)):
+            o = dict(batch=r.random() < 0.3, verbose=r.random() < 0.5, colors=r.random() < 0.5, level=r.choice(LEVELS), json=r.choice([0, 0, 1]))
+            debug = r.random() < 0.15
+            ops = gen_ops(r)
+            lines.append('buf.exec %s %s' % (cfg_token(o, debug), ';'.join(op_token(x) for x in ops) or '_'))
+            exp.append((real_ops(o, debug, ops), o, debug, ops))
+            cov.add(('ops', len(lines)), True, tags=['buffer-ops', 'ops-err' if exp[-1][0]['err'] else 'ops-ok'],
+                    sample={'ops': [list(x) for x in ops[:6]], 'options': o, 'buffer': exp[-1][0]['buffer'][:4]} if len(lines) == 7 else None)
+        if ctx.driver_ok:
+            for line, m, (im, o, debug, ops) in zip(lines, ctx.driver(lines), exp):
+                corr += 1
+                k = m.get('ok')
+                if k is None:
+                    mismatches.append({'stream': 'buf.exec', 'op': line[:300], 'model': m, 'impl': im})
+                    continue
+                mm = {'buffer': k['buffer'], 'sect': k['sect'], 'inSection': k['inSection'], 'lineEnded': k['lineEnded'], 'stdout': ''.join('\n'.join(w) + '\n' for w in k['out']), 'err': k['err']}
+                if im['err'] is not None:
+                    ok = mm['err'] == im['err']       # after the exception the Python object is half-updated; only the exception itself is compared
+                else:
+                    ok = mm == im
+                if not ok:
+                    mismatches.append({'stream': 'buf.exec', 'op': line[:300], 'model': mm, 'impl': im, 'ops': [list(x) for x in ops]})
+        # ---- (4) sort / strip
+        lines, exp = [], []
+        alpha = ['\x1b', '[', '0', ';', 'm', '3', '1', 'a', ' ', '(rec) ', '-', '+', '!']
+        for _ in range(ctx.scale(300, 3000)):
+            t = ''.join(r.choice(alpha) for _ in range(r.randint(0, 14)))
+            if r.random() < 0.5:
+                t = '\x1b[0;3%dm' % r.randint(0, 9) + t + '\x1b[0m'
+            lines.append('out.strip ' + tstr(t))
+            exp.append(strip_ansi(t))
+            l = [''.join(r.choice(alpha[2:]) for _ in range(r.randint(0, 4))) for _ in range(r.randint(0, 7))]
+            lines.append('out.sort ' + tstrs(l))
+            exp.append(sorted(l))
+        if ctx.driver_ok:
+            for line, m, want in zip(lines, ctx.driver(lines), exp):
+                corr += 1
+                if m.get('ok') != want:
+                    mismatches.append({'stream': line.split(' ')[0], 'op': line[:200], 'model': m.get('ok'), 'impl': want})
+        # ---- (2) output() over the grid
+        peers = [(p, d, {}) for p, d in special_peers(r)]
+        for i in range(ctx.scale(6, 390)):
+            v = dict(r.choice(VARIANTS)) if r.random() < 0.6 else {}
+            if 'banner_line' not in v and r.random() < 0.5:
+                v['banner_line'] = r.choice(pg.BANNERS)
+            peers.append((pg.gen_peer(r, sizes=True, client_lists=True), 'gen-%d' % i, v))
+        for i, v in enumerate(VARIANTS[1:]):
+            peers[i % len(peers)] = (peers[i % len(peers)][0], peers[i % len(peers)][1] + '+variant', dict(v))
+        chunk_lines, chunk_exp = [], []
+
+        def flush_chunk():
+            nonlocal corr
+            if not ctx.driver_ok or not chunk_lines:
+                del chunk_lines[:], chunk_exp[:]
+                return
+            for line, m, (ret, entries, records, o, desc) in zip(chunk_lines, ctx.driver(chunk_lines), chunk_exp):
+                corr += 1
+                k = m.get('ok')
+                if k is None:
+                    mismatches.append({'stream': 'output.run', 'op': line[:200], 'model': m, 'impl': None, 'case': desc})
+                    continue
+                if k['entries'] != entries or k['closed'] != entries or k['status'] != ret or k['err'] is not None:
+                    d = next((i for i, (a, b) in enumerate(zip(k['entries'], entries)) if a != b), min(len(entries), len(k['entries'])))
+                    mismatches.append({'stream': 'output.run', 'op': line[:120], 'case': desc, 'options': o, 'model': {'status': k['status'], 'err': k['err'], 'n': len(k['entries']), 'first_diff': k['entries'][d:d + 1], 'closed_eq': k['closed'] == k['entries']},
+                                       'impl': {'status': ret, 'n': len(entries), 'first_diff': entries[d:d + 1]}})
+                    continue
+                # the finding / method pairs against the calls the real code made (recorded before the level filter)
+                recs = rc.parse_alg_records(records, verbose=o['verbose'])
+                impl_pairs = [[c, shown.rstrip(' '), lvl, text, meth] for c in rc.CATS for shown, notes, meths in recs[c] for (lvl, text), meth in zip(notes, meths)]
+                model_pairs = [p[:5] for p in k['pairs']]
+                if impl_pairs != model_pairs:
+                    mismatches.append({'stream': 'output.pairs', 'op': line[:120], 'case': desc, 'options': o, 'model': [p for p in model_pairs if p not in impl_pairs][:3], 'impl': [p for p in impl_pairs if p not in model_pairs][:3]})
+            del chunk_lines[:], chunk_exp[:]
+        for pi, (peer, desc, v) in enumerate(peers):
+            client = v.get('client', False)
+            comp = compat_text(peer, client)
+            results = {}
+            rows = []
+            for o in GRID:
+                ret, entries, records, banner = real_output(peer, o, client=client, banner_line=v.get('banner_line', 'SSH-2.0-OpenSSH_8.0'), rate_notes=v.get('rate_notes', ''),
+                                                            header=v.get('header', ()), print_target=v.get('print_target', False), host=v.get('host', 'h'), port=v.get('port', 22))
+                results[okey(o)] = (ret, entries)
+                rows.append((o, ret, entries, records, banner))
+                cov.add((desc, pi, okey(o)), True, tags=['output()', 'json' if o['json'] else 'text', 'level-' + o['level'], 'status-%d' % ret],
+                        sample={'peer': {k: peer[k][:3] for k in ('kex', 'key', 'encS', 'macS')}, 'variant': {k: str(x) for k, x in v.items()}, 'options': o, 'exit': ret, 'lines': len(entries)} if (pi % 7 == 0 and okey(o) == okey(GRID[40])) else None)
+            for o, ret, entries, records, banner in rows:
+                d = ('', '')
+                if o['json'] and len(entries) == 1:
+                    d = (entries[0], '') if o['json'] == 1 else ('', entries[0])
+                chunk_lines.append(run_line(o, peer, banner, client=client, rate_notes=v.get('rate_notes', ''), header=v.get('header', ()), print_target=v.get('print_target', False),
+                                            host=v.get('host', 'h'), port=v.get('port', 22), docs=d, compat=comp))
+                chunk_exp.append((ret, entries, records, o, desc))
+            for f in oracle_peer(results, peer, desc):
+                f['input'].update(peer=peer, variant=v)
+                failures.append(f)
+            # repeated in-process runs are identical
+            o = r.choice(GRID)
+            again = real_output(peer, o, client=client, banner_line=v.get('banner_line', 'SSH-2.0-OpenSSH_8.0'), rate_notes=v.get('rate_notes', ''), header=v.get('header', ()),
+                                print_target=v.get('print_target', False), host=v.get('host', 'h'), port=v.get('port', 22))
+            if (again[0], again[1]) != results[okey(o)]:
+                failures.append({'sig': {'kind': 'repeated_audit_differs'}, 'input': {'what': 'output()', 'peer': peer, 'variant': v, 'options': o, 'desc': desc}, 'observed': 'second run differs', 'expected': 'identical buffers',
+                                 'how': 'harness/props/C15.py: output() twice on fresh databases'})
+            if len(chunk_lines) >= 72 * 20:
+                flush_chunk()
+        flush_chunk()
+        # ---- (3) main() over scripted peers: stdout with the verbose messages, the final write, the error path
+        cases = [('mixed', None), ('warnonly', None), ('unknown', None), ('mixed', 'no_kexinit')]
+        if ctx.tier == 'thorough':
+            cases += [('clean', None), ('clean', 'no_kexinit')]
+        lines, exp = [], []
+        for sname, fault in cases:
+            grid = GRID if (ctx.tier == 'thorough' or (sname, fault) in (('mixed', None), ('mixed', 'no_kexinit'))) else r.sample(GRID, 16)
+            runs = {}
+            docs = {}
+            for o in grid:
+                code, text, cap, err = run_main_captured(sname, args_of(o), fault)
+                runs[okey(o)] = (code, text)
+                cov.add(('main', sname, fault, okey(o)), True, tags=['main()', 'fault' if fault else 'complete', 'json' if o['json'] else 'text'],
+                        sample={'server': sname, 'fault': fault, 'args': args_of(o), 'exit': code, 'stdout_head': text[:90]} if okey(o) == okey(GRID[5]) else None)
+                if cap is None:
+                    continue
+                peer = peer_of_kex(cap['kex']) if cap['kex'] is not None else EMPTY_PEER
+                if o['json']:
+                    kq = (sname, fault, o['json'])
+                    if kq not in docs:
+                        q = dict(o, verbose=False, level='info')
+                        c2, t2, _, _ = run_main_captured(sname, args_of(q), fault)
+                        docs[kq] = t2.split('\n')[0] if o['json'] == 1 and fault else (t2[:t2.rindex('}') + 1] if '}' in t2 else t2)
+                    d = (docs[kq], '') if o['json'] == 1 else ('', docs[kq])
+                else:
+                    d = ('', '')
+                lines.append(run_line(o, peer, cap['banner'], client=False, rate_notes=cap['rate'], header=cap['header'], print_target=cap['print_target'], host=cap['host'], port=cap['port'],
+                                      has_kex=cap['kex'] is not None, docs=d, vmsgs=[VMSG], err=err if fault else None,
+                                      compat=compat_text(peer, False) if cap['kex'] is not None else None))
+                exp.append((code, text, o, sname, fault))
+            for f in oracle_main(runs, sname, fault):
+                failures.append(f)
+        if ctx.driver_ok:
+            for line, m, (code, text, o, sname, fault) in zip(lines, ctx.driver(lines), exp):
+                corr += 1
+                k = m.get('ok')
+                if k is None or k['stdout'] != text or (fault is None and k['status'] != code):
+                    mismatches.append({'stream': 'main.stdout', 'case': [sname, fault], 'options': o, 'model': None if k is None else {'stdout': k['stdout'][:300], 'status': k['status']}, 'impl': {'stdout': text[:300], 'exit': code}})
+        # ---- runtime part (testing): hash seeds, repeated runs, compact vs indented
+        pf, nproc = oracle_process(ctx, cov)
+        failures.extend(pf)
+    finally:
+        fn.reset_dbs()
+        if saved_nc is not None:
+            os.environ['NO_COLOR'] = saved_nc
+    return {'failures': failures, 'mismatches': mismatches, 'coverage': cov, 'corr_cases': corr,
+            'assumptions': ['findings are re-read from the captured text with the parser of report_common (names without " -- [" inside; generated names have none)',
+                            'the level of a printed line is read from its colour in the coloured option sets; the uncoloured sets are tied to them by the strip comparison',
+                            'colour output assumes a POSIX terminal table (COLORS on non-Windows); NO_COLOR is removed from the environment for the run',
+                            'scripted peers in the main() tier use host keys and groups that add no size notes (the report content itself is C01-C04/C13 territory)'],
+            'observations': observations,
+            'trusted_extra': ['runtime part of C15 (hash seeds, repeated runs, compact vs. indented JSON) is testing on %d subprocess runs, not proof' % nproc]}
+
+
+# ---------------------------------------------------------------- replay
+
+def replay(obj):
+    f = obj.get('failure', obj)
+    inp = f.get('input', {})
+    kind = f.get('sig', {}).get('kind')
+    saved_nc = os.environ.pop('NO_COLOR', None)
+    try:
+        if inp.get('what') == 'output()' and 'peer' in inp:
+            v = inp.get('variant', {})
+            results = {}
+            for o in GRID:
+                ret, entries, _, _ = real_output(inp['peer'], o, client=v.get('client', False), banner_line=v.get('banner_line', 'SSH-2.0-OpenSSH_8.0'), rate_notes=v.get('rate_notes', ''),
+                                                 header=v.get('header', ()), print_target=v.get('print_target', False), host=v.get('host', 'h'), port=v.get('port', 22))
+                results[okey(o)] = (ret, entries)
+            fs = [x for x in oracle_peer(results, inp['peer'], inp.get('desc', 'replay')) if x['sig'].get('kind') == kind] if kind != 'repeated_audit_differs' else []
+            o = inp.get('options')
+            if isinstance(o, dict):
+                print('options %s -> exit %d, %d entries; first lines:' % (o, results[okey(o)][0], len(results[okey(o)][1])))
+                for l in results[okey(o)][1][:12]:
+                    print('   ' + repr(l)[:160])
+            for x in fs[:3]:
+                print('FAILS: %s observed=%s expected=%s options=%s' % (x['sig'], str(x['observed'])[:300], str(x['expected'])[:200], x['input']['options']))
+            return 1 if fs else 0
+        if inp.get('what') == 'main()':
+            grid = GRID
+            runs = {}
+            for o in grid:
+                code, text, _, _ = run_main_captured(inp['server'], args_of(o), inp.get('fault'))
+                runs[okey(o)] = (code, text)
+            fs = [x for x in oracle_main(runs, inp['server'], inp.get('fault')) if x['sig'] == f.get('sig')]
+            o = inp.get('options')
+            if isinstance(o, dict):
+                print('args %s -> exit %s, stdout head %r' % (inp.get('args'), runs[okey(o)][0], runs[okey(o)][1][:200]))
+            for x in fs[:3]:
+                print('FAILS: %s observed=%s expected=%s args=%s' % (x['sig'], str(x['observed'])[:300], str(x['expected'])[:200], x['input']['args']))
+            return 1 if fs else 0
+        if inp.get('what') == 'process':
+            seeds = inp.get('seeds', ['0', '1'])
+            res = process_runs([(inp['server'], None, [a for a in inp['args'] if a != '--skip-rate-test' and ' / ' not in a], sd) for sd in seeds])
+            for sd, (code, so, se) in zip(seeds, res):
+                print('PYTHONHASHSEED=%s -> exit %s, %d bytes, sha1 %s' % (sd, code, len(so), hashlib.sha1(so).hexdigest()[:12]))
+            return 1 if len({(c, so) for c, so, _ in res}) > 1 else 0
+    finally:
+        fn.reset_dbs()
+        if saved_nc is not None:
+            os.environ['NO_COLOR'] = saved_nc
+    print(json.dumps(f, indent=1, default=str)[:2000])
+    return 0
